@@ -881,7 +881,7 @@ def strb_of(v):
     return s
 
 
-@model("std::string::String::new")
+@model("std::string::String::new", "std::string::String::with_capacity")
 def m_string_new(I, args, fn, expr):
     return StrB()
 
@@ -988,6 +988,16 @@ def m_fmt_format(I, args, fn, expr):
     return out
 
 
+@model("std::str::<impl str>::repeat", "core::str::<impl str>::repeat", "alloc::str::<impl str>::repeat")
+def m_str_repeat(I, args, fn, expr):
+    s, n = strip(args[0]), strip(args[1])
+    if isinstance(s, StrB) and s.is_concrete():
+        s = s.text()
+    if isinstance(s, str) and isinstance(n, int) and 0 <= n <= 4096:
+        return s * n
+    return I.top("repeat(%r, %r)" % (s, n))
+
+
 @model("std::ops::Add::add")
 def m_add(I, args, fn, expr):
     a, b = strip(args[0]), strip(args[1])
@@ -1069,13 +1079,15 @@ def m_is_empty(I, args, fn, expr):
     return Sym("is_empty(%s)" % _nm(l), expr["ty"] if expr else None)
 
 
-@model("core::slice::<impl [T]>::first", "core::slice::<impl [T]>::first_mut")
+@model("core::slice::<impl [T]>::first", "core::slice::<impl [T]>::first_mut",
+       "std::collections::VecDeque::<T, A>::front", "std::collections::VecDeque::<T, A>::front_mut")
 def m_first(I, args, fn, expr):
     l = _list_ref(I, args[0], "first")
     return some(Ref(Place(l, 0))) if l.items else none()
 
 
-@model("core::slice::<impl [T]>::last", "core::slice::<impl [T]>::last_mut")
+@model("core::slice::<impl [T]>::last", "core::slice::<impl [T]>::last_mut",
+       "std::collections::VecDeque::<T, A>::back", "std::collections::VecDeque::<T, A>::back_mut")
 def m_last(I, args, fn, expr):
     l = _list_ref(I, args[0], "last")
     return some(Ref(Place(l, len(l.items) - 1))) if l.items else none()
@@ -1182,6 +1194,16 @@ def m_iter_filter_map(I, args, fn, expr):
             if o.variant == "Some":
                 return o.fields["0"]
     return RIter(nxt, "filter_map")
+
+
+@model("core::str::<impl str>::bytes")
+def m_str_bytes(I, args, fn, expr):
+    s = strip(args[0])
+    if isinstance(s, StrB) and s.is_concrete():
+        s = s.text()
+    if not isinstance(s, str):
+        raise Abort("bytes() of %r" % (s,))
+    return iter_of(I, RList(list(s.encode())), by_ref=False)
 
 
 @model("itertools::Itertools::batching")
